@@ -476,7 +476,7 @@ def history_tables(hist):
     for widths in hist["family"]:
         blocks = blocks_from_widths(widths)
         n = sum(len(w) for w in widths)
-        regs = regions_large(r, blocks, 4)
+        regs = regions_large(r, blocks, 3)
         pxseed = r.randrange(1 << 30)
         dense = 0.6 if n <= 12 else 0.25
         px = make_px(random.Random(pxseed), n, dense)
@@ -675,7 +675,7 @@ def run(ctx):
     thorough = ctx.tier == "thorough"
     rng = ctx.rng
     jobs = []   # (widths, regs, share of regions that also go through the fetch APIs, label)
-    share = 0.3 if thorough else 0.16
+    share = 0.3 if thorough else 0.14
     for widths in CORPUS:
         blocks = blocks_from_widths(widths)
         small = max(b[-1][2] for b in blocks) <= 12
